@@ -4,6 +4,7 @@ import json
 import os
 import socket
 import threading
+import time
 
 
 class FakeService:
@@ -96,7 +97,17 @@ class FakeService:
                             c.close()
                             return
                         try:
-                            c.sendall(json.dumps(r).encode() + b"\0")
+                            data = json.dumps(r).encode() + b"\0"
+                            self.nreplies = getattr(self, "nreplies", 0) + 1
+                            # every third reply goes out in two segments with a pause in between
+                            # (cut before the NUL, or in the middle)
+                            k = {0: len(data) - 1, 3: len(data) // 2}.get(self.nreplies % 6)
+                            if k and 0 < k < len(data):
+                                c.sendall(data[:k])
+                                time.sleep(0.002)
+                                c.sendall(data[k:])
+                            else:
+                                c.sendall(data)
                         except OSError:
                             # the peer no longer reads; keep logging what it had sent
                             pass
